@@ -15,7 +15,7 @@ def run(tier):
                         "directly from Generic, a custom Iterable subclass, a registered collection class adding operators, dataclass fields, methods without return "
                         "annotation: method chains, nested Select/Where/SelectMany to depth 3, First, subscript, Count/len, comparisons, and/or/not, unary minus, "
                         "conditionals, dict / tuple literals with field access; oracle: the type the annotations imply (written next to each expression)"),
-        chrun.SJob("vlib.sh.c08", "c08b", base.parts(7), t,
+        chrun.SJob("vlib.sh.c08", "c08b", base.parts(8), t,
                    what="arithmetic / conditional / comparison typing: symbolic choice of both operand kinds (7: int/float/Any methods, int and float constants, "
                         "inherited int method, Count), operator (+ - * / %), form, and the constant's value (unbounded int); oracle: int/float promotion rules"),
         chrun.SJob("vlib.sh.c08", "c08c", base.parts(h.NSTREAM, 3), t,
@@ -28,5 +28,5 @@ def run(tier):
                        functions=["func_adl.type_based_replacement.remap_by_types (type_transformer.visit_*, process_method_call, type_follow_in_callbacks)",
                                   "func_adl.util_types.get_method_and_class/resolve_type_vars/build_type_dict_from_type/get_inherited/is_iterable/unwrap_iterable",
                                   "func_adl.object_stream.ObjectStream.Select/SelectMany/Where"],
-                       bounds={"expressions": h.NTABLE, "operand_kinds": 7, "operators": 5, "stream_cases": h.NSTREAM, "nesting_depth": 3})
+                       bounds={"expressions": h.NTABLE, "operand_kinds": 8, "operators": 5, "stream_cases": h.NSTREAM, "nesting_depth": 3})
     return r.finish()
